@@ -11,6 +11,7 @@ import Driver.Special
 import Driver.Simd
 import Driver.Matmul
 import Driver.ExprDrv
+import Driver.Minimizer
 /-! `adept_model <family>`: line protocol on stdin/stdout, one result line per input line.
     Every import of this file must stay free of Mathlib (the driver is linked natively). -/
 open Adept Adept.Drv
@@ -29,4 +30,5 @@ def main (args : List String) : IO UInt32 := do
   | ["simd"] => runFamily SimdDrv.step (); return 0
   | ["matmul"] => runFamily MatmulDrv.step {}; return 0
   | ["expr"] => runFamily ExprDrv.step {}; return 0
+  | ["minimizer"] => runFamily MinimizerDrv.step (); return 0
   | _ => IO.eprintln "usage: adept_model <family>"; return 2
